@@ -261,7 +261,7 @@ func (p *Proxy) handleLoop(conn net.Conn) {
 		deadline := time.Now().Add(p.timeout)
 		conn.SetDeadline(deadline)
 
-		if err := p.handle(ctx, conn, brw); isCloseable(err) {
+		if err := p.handle(ctx, s.currentConn(), brw); isCloseable(err) {
 			log.Debugf("martian: closing connection: %v", conn.RemoteAddr())
 			return
 		}
@@ -372,6 +372,10 @@ func (p *Proxy) handleConnectRequest(ctx *Context, req *http.Request, session *S
 			}
 			brw.Writer.Reset(nconn)
 			brw.Reader.Reset(nconn)
+			// Every further request of the session is read from the decrypted
+			// connection, and that is what a hijacker is handed.
+			session.setConn(nconn, brw)
+			session.setTunnelHost(req.Host)
 			return p.handle(ctx, nconn, brw)
 		}
 
@@ -508,6 +512,11 @@ func (p *Proxy) handle(ctx *Context, conn net.Conn, brw *bufio.ReadWriter) error
 	req.RemoteAddr = conn.RemoteAddr().String()
 	if req.URL.Host == "" {
 		req.URL.Host = req.Host
+	}
+	if req.URL.Host == "" {
+		// A request inside a decrypted tunnel that names no host is meant for
+		// the tunnel's target.
+		req.URL.Host = session.getTunnelHost()
 	}
 
 	if req.Method == "CONNECT" {
